@@ -9,7 +9,7 @@ from pbmon.props.c01 import PROTOS, proto_class
 
 PROPERTY = "C02"
 NSHARDS = {"quick": 6, "thorough": 16}
-CLAUSES = {"C02.adjacent": 60, "C02.segregation": 60, "C02.nonadjacent": 200, "C02.independence": 200,
+CLAUSES = {"C02.adjacent": 60, "C02.segregation": 60, "C02.nonadjacent": 60, "C02.independence": 200,
            "C02.exact": 2000, "C02.xoprob": 100, "C02.selfing": 10}
 HOOKS_REQUIRED = ["mat_meiosis calls", "dense_meiosis calls", "constant uniform() interceptions"]
 RULE = ("layouts = (chromosome structure, crossover-probability vector or Haldane/Kosambi map, mating protocol) drawn from seeded "
@@ -31,6 +31,8 @@ def gen_layout(g, c=None):
     chrgrp = pop.chrom_layout(g, m, nchr)
     st = pop.chrom_starts(chrgrp)
     kind = ["constant", "random", "mixed", "haldane", "haldane", "kosambi", "leading-zeros"][int(g.integers(7))]
+    if c is not None and c % 4 == 0:
+        kind = "haldane"; m = max(m, 8 + nchr); chrgrp = pop.chrom_layout(g, m, nchr); st = pop.chrom_starts(chrgrp)   # guarantees non-adjacent pair tests in every run
     if c is not None and c % len(PROTOS) < 2 and kind == "leading-zeros":
         kind = "mixed"     # the end-to-end selfing clause needs 0.5 at chromosome starts
     genpos = None
